@@ -112,6 +112,15 @@ pub fn determine_constraints(
         strip_newlines = false;
     }
 
+    // Nor is a line break inside a block comment: the lexer cuts a block comment at its
+    // line breaks, so a piece that does not close the comment is followed by the
+    // comment's own line break, which is part of its text.
+    if prev_block.is_some_and(|block| {
+        block.segment().is_type(SyntaxKind::BlockComment) && !block.segment().raw().ends_with("*/")
+    }) {
+        strip_newlines = false;
+    }
+
     (pre_constraint, post_constraint, strip_newlines)
 }
 
